@@ -1,11 +1,20 @@
 pub mod c01;
 pub mod c02;
 pub mod c04;
+pub mod val;
+pub mod val_enum;
 
 use crate::core::Prop;
 
 pub fn all() -> Vec<Box<dyn Prop>> {
-    vec![Box::new(c01::C01), Box::new(c02::C02), Box::new(c04::C04)]
+    vec![Box::new(c01::C01), Box::new(c02::C02), Box::new(c04::C04),
+        Box::new(val::ValProp { which: crate::valcheck::Which::C05 }),
+        Box::new(val::ValProp { which: crate::valcheck::Which::C06 }),
+        Box::new(val::ValProp { which: crate::valcheck::Which::C07 }),
+        Box::new(val::ValProp { which: crate::valcheck::Which::C08 }),
+        Box::new(val::ValProp { which: crate::valcheck::Which::C09 }),
+        Box::new(val::ValProp { which: crate::valcheck::Which::C10 }),
+    ]
 }
 
 pub fn by_id(id: &str) -> Option<Box<dyn Prop>> {
